@@ -133,7 +133,7 @@ def check_c03(tier):
         dict(name="seg-bfs", worlds=["seg-2d"] if q else ["seg-2d", "seg-3d"], seeds=HAND_SEEDS, depth=1 if q else 2,
              kinds=("del_node", "del_edge", "add_edge", "add_node", "swap", "paint")),
     ]
-    res = run_e1("C03", tier, stages, dict(undo_probe=True), time_budget=budget(tier, 100, 1500))
+    res = run_e1("C03", tier, stages, dict(undo_probe=True), time_budget=budget(tier, 300, 1500))
     return with_history_invariants("C03", tier, res)
 
 
@@ -176,17 +176,17 @@ def with_history_invariants(prop, tier, res):
 
 
 def check_c04(tier):
-    res = run_e1("C04", tier, struct_stages(tier), dict(undo_probe=True), time_budget=budget(tier, 100, 1500))
+    res = run_e1("C04", tier, struct_stages(tier), dict(undo_probe=True), time_budget=budget(tier, 300, 1500))
     return with_constructor_variants("C04", tier, with_history_invariants("C04", tier, res))
 
 
 def check_c05(tier):
-    res = run_e1("C05", tier, struct_stages(tier), dict(undo_probe=True), time_budget=budget(tier, 100, 1500))
+    res = run_e1("C05", tier, struct_stages(tier), dict(undo_probe=True), time_budget=budget(tier, 300, 1500))
     return with_constructor_variants("C05", tier, with_history_invariants("C05", tier, res))
 
 
 def check_c06(tier):
-    res = run_e1("C06", tier, struct_stages(tier), dict(undo_probe=True), time_budget=budget(tier, 100, 1500))
+    res = run_e1("C06", tier, struct_stages(tier), dict(undo_probe=True), time_budget=budget(tier, 300, 1500))
     return with_constructor_variants("C06", tier, with_history_invariants("C06", tier, res))
 
 
@@ -198,13 +198,13 @@ def check_c11(tier):
                        kinds=("paint", "add_node", "add_edge", "del_node")))
     stages.append(dict(name="noseg-axes", worlds=["noseg-2d-axes", "noseg-3d"], seeds=NOSEG_SEEDS, depth=1 if q else 2,
                        kinds=STRUCT_KINDS + ("set_attr",)))
-    return run_e1("C11", tier, stages, dict(undo_probe=False), time_budget=budget(tier, 100, 1500))
+    return run_e1("C11", tier, stages, dict(undo_probe=False), time_budget=budget(tier, 300, 1500))
 
 
 def check_c20(tier):
     q = tier == "quick"
     res = run_e1("C20", tier, struct_stages(tier, extra_kinds=("set_attr",)), dict(undo_probe=True),
-                 time_budget=budget(tier, 100, 1500))
+                 time_budget=budget(tier, 300, 1500))
     # undo()/redo() with nothing to do, refused edits inside longer histories: the E2 sequences
     # of C02 carry the refresh counter on every call
     return merge_results(res, run_e2("C20", tier, "C02", [(M1, 4 if q else 6), (M2, 3 if q else 5), (M1B, 4 if q else 5)],
@@ -225,7 +225,7 @@ def check_c01(tier):
     ]
     if q:
         stages.append(dict(name="seg-3d", worlds=["seg-3d-aniso"], seeds=["div", "skip", "two"], depth=1, kinds=kinds + ("paint",)))
-    return run_e1("C01", tier, stages, dict(undo_probe=True), time_budget=budget(tier, 100, 1500))
+    return run_e1("C01", tier, stages, dict(undo_probe=True), time_budget=budget(tier, 300, 1500))
 
 
 SEG_KINDS = ("del_node", "del_edge", "add_edge", "add_node", "swap", "paint")
@@ -272,7 +272,7 @@ def check_c07(tier):
         dict(name="scaled", worlds=["seg-2d-aniso", "seg-2d-all"] if q else ["seg-2d-aniso", "seg-2d-all", "seg-3d-aniso"],
              seeds=HAND_SEEDS + ["twodiv"], depth=1 if q else 2, kinds=SEG_KINDS),
     ]
-    return run_e1("C07", tier, stages, dict(undo_probe=True), time_budget=budget(tier, 120, 2400))
+    return run_e1("C07", tier, stages, dict(undo_probe=True), time_budget=budget(tier, 400, 2400))
 
 
 def check_c08(tier):
@@ -289,7 +289,7 @@ def check_c08(tier):
         # all 3D shape features (marching cubes, inertia tensor) on strokes that put one label
         # inside another label's bounding box
         stages.append(dict(name="3d-all-features", worlds=["seg-3d-all"], seeds=["div", "two"], depth=1, kinds=("paint", "add_node")))
-    res = run_e1("C08", tier, stages, dict(undo_probe=True), time_budget=budget(tier, 150, 3000),
+    res = run_e1("C08", tier, stages, dict(undo_probe=True), time_budget=budget(tier, 400, 3000),
                  assumptions=["numpy reference for area/position uses rel_tol 1e-12; the from-scratch differential oracle is exact",
                               "2D perimeter/circularity only with isotropic spacing (skimage limitation)"])
     return merge_results(res, run_e2("C08", tier, "C10", [(C08_TOGGLE, 3 if q else 4), (C08_TOGGLE_ANISO, 3 if q else 4)],
@@ -303,7 +303,7 @@ def check_c09(tier):
         dict(name="aniso-given", worlds=["seg-2d-aniso", "seg-2d-fd"], seeds=HAND_SEEDS + ["fix6"], depth=1 if q else 2, kinds=SEG_KINDS),
         dict(name="3d", worlds=["seg-3d"], seeds=HAND_SEEDS, depth=1 if q else 2, kinds=SEG_KINDS),
     ]
-    res = run_e1("C09", tier, stages, dict(undo_probe=True), time_budget=budget(tier, 150, 3000))
+    res = run_e1("C09", tier, stages, dict(undo_probe=True), time_budget=budget(tier, 400, 3000))
     return merge_results(res, run_e2("C09", tier, "C10", [(C09_TOGGLE, 3 if q else 4)],
                                      alias={"enabled-iou-wrong": "C09"}, time_budget=budget(tier, 60, 900)))
 
@@ -434,7 +434,7 @@ def check_c02(tier):
     q = tier == "quick"
     menus = [(M1, 5 if q else 7), (M1B, 5 if q else 6), (M2, 4 if q else 6), (M3, 2 if q else 3), (M3S, 2),
              (M_DEEP, 7 if q else 9)]
-    return run_e2("C02", tier, "C02", menus, time_budget=budget(tier, 150, 3000),
+    return run_e2("C02", tier, "C02", menus, time_budget=budget(tier, 400, 3000),
                   inv_props=("C03", "C04", "C05", "C06"))
 
 
@@ -491,7 +491,7 @@ def check_c10(tier):
     q = tier == "quick"
     menus = [(C10_SEG, 3 if q else 4), (C10_SEG_FD, 3 if q else 4), (C10_SEG_FD_STALE, 2 if q else 3),
              (C10_NOSEG, 4 if q else 5), (C10_NOSEG_FD, 3 if q else 4)]
-    return run_e2("C10", tier, "C10", menus, time_budget=budget(tier, 150, 3000))
+    return run_e2("C10", tier, "C10", menus, time_budget=budget(tier, 400, 3000))
 
 
 # ---------------------------------------------------------------------------
@@ -553,13 +553,13 @@ def check_c19(tier):
     return run_e3("C19", tier, [
         ("c19u", "ensure_unique_labels: all arrays 4x1x2 over {0,1,2,5}, multiseg 2x2x1x2", lambda: ss.c19_unique_cases(tier)),
         ("c19r", "relabel_segmentation_with_track_id: all forests x label schemes", lambda: ss.c19_relabel_cases(tier)),
-    ], time_budget=budget(tier, 120, 2400))
+    ], time_budget=budget(tier, 400, 2400))
 
 
 def check_c13(tier):
     from . import smallscope as ss
     return run_e3("C13", tier, [("c13", "all label arrays 2x1x3 x all injective (time,label)->id assignments", lambda: ss.c13_cases(tier))],
-                  time_budget=budget(tier, 150, 3000))
+                  time_budget=budget(tier, 400, 3000))
 
 
 def check_c12(tier):
